@@ -32,10 +32,17 @@ def section_seeds():
     for d in sorted(glob.glob(os.path.join(ROOT, "seeded", "*", "meta.json"))):
         sid = os.path.basename(os.path.dirname(d)); m = json.load(open(d))
         c = m.get("confirmed", {})
-        conf = "%s / %s / %s" % ("yes" if c.get("tests_pass_with_patch", m.get("tests_pass")) else "?",
-                                 "yes" if c.get("demo_with_patch", c.get("demo_with_patch_exit", 1)) not in (0, None) else "?",
-                                 "yes" if c.get("demo_without_patch", c.get("demo_without_patch_exit", 0)) == 0 else "?")
+        tp = c.get("tests_pass_with_patch", c.get("existing_tests_pass_with_patch(ninja check, 62 tests)", m.get("tests_pass")))
+        dw = c.get("demo_with_patch", c.get("demo_with_patch_exit", c.get("demo_exit_with_patch", 1)))
+        dwo = c.get("demo_without_patch", c.get("demo_without_patch_exit", c.get("demo_exit_without_patch", 0)))
+        conf = "%s / %s / %s" % ("yes" if tp else "?", "yes" if dw not in (0, None) else "?", "yes" if dwo == 0 else "?")
         det = m.get("detected_by", {})
+        if not det and "detected_by_quick_check_violations" in m:
+            det = {p: {"violations": v, "first": m.get("first_violation", {}).get(p, "")} for p, v in m["detected_by_quick_check_violations"].items()}
+            hist = m.get("detection_history", [])
+            if len(hist) > 1 and not m.get("strengthened"):
+                first = list(hist[0].values())[0]
+                if all(v == 0 for v in first.values()): m["strengthened"] = "missed in the first run(s); see detection_history in meta.json"
         if isinstance(det, dict):
             parts = []
             for p, v in det.items():
@@ -60,7 +67,7 @@ def section_claims():
         p = os.path.join(ROOT, "evidence", pid + ".json")
         if os.path.exists(p):
             j = json.load(open(p)); c = j.get("coverage", {})
-            ev = "%s/%s obligations, %s evaluations (%s distinct non-trivial), %s violation(s)" % (c.get("discharged"), c.get("obligations"), c.get("evaluations"), c.get("distinct_nontrivial"), len(j.get("violations", [])))
+            ev = "%s/%s obligations, %s evaluations (%s distinct non-trivial), %s violation(s)" % (c.get("discharged"), c.get("obligations"), c.get("evaluations"), c.get("distinct_nontrivial"), (j.get("violations") if isinstance(j.get("violations"), int) else len(j.get("violations", []))))
         wl = ", ".join(sorted({w["harness"] + ":" + str(w["args"][0]) for w in e["workloads"]("quick", 1)}))
         out.append("| %s | claimed | %s (%d theorems) | %s | %s |" % (pid, ", ".join(m.replace("IbexProofs.Props.", "") for m in e["modules"]), len(names), wl, ev))
     return "\n".join(out)
